@@ -131,6 +131,9 @@ func (ev *Evidence) addViolation(rf *ReplayFile) {
 	ev.Violations = append(ev.Violations, map[string]interface{}{"signature": rf.Sig, "notes": rf.Notes, "nondet": rf.Nondet})
 }
 
+// evidencePartial: a run restricted to some groups (--only, development) does not describe the check
+var evidencePartial bool
+
 func (ev *Evidence) write(wall float64, violations int) {
 	spec := properties[ev.id]
 	funcs := make([]string, 0, len(ev.Funcs))
@@ -207,7 +210,7 @@ func (ev *Evidence) write(wall float64, violations int) {
 	}
 	b, _ := json.MarshalIndent(doc, "", " ")
 	dir := filepath.Join(verifRoot(), "evidence")
-	if os.Getenv("VERIF_REPO") != "" {
+	if os.Getenv("VERIF_REPO") != "" || evidencePartial {
 		// experiments on a scratch copy of the repository never touch the registered evidence
 		dir = filepath.Join(verifRoot(), "work", "evidence-experiment")
 	}
